@@ -292,6 +292,14 @@ func seqProfile0(prop, tier string) *SeqProfile {
 				Note: "thorough-only (quick: the schedule generator run checks the same invariants on conc_q's constants). KlevConc.tla: lock-level model with reader object identity; every result checked at its linearization point, full scan = abstract log at quiescence, head flag only on the last reader"},
 				{Module: "KlevConc.tla", Cfg: "conc_f13.cfg", Workers: 4, Timeout: 10 * time.Minute, Expect: "QuiescentOK,HeadFlagOK",
 					Note: "negative control: the model of the code before the repair of F13 (stale head reader) must violate QuiescentOK or HeadFlagOK"},
+				{Module: "KlevConcK.tla", Cfg: tierS(tier, "conck_sync_q.cfg", "conck_t.cfg"), Workers: 16, Timeout: 30 * time.Minute,
+					Note: "(quick: the Sync process alone; the lookups' constants of conck_q are checked by the schedule generator run, ConcKGen) KlevConcK.tla: Sync under writerMu against writers closed by a rollover or a rewrite of the writing segment (SYNC-ON-CLOSED-WRITER, SYNC-OFFSET), and the multi-segment lookups (GetByKey, GetByTime with the emptyHead flag / previous-segment rule / hand-off to the next segment, ConsumeByKey with next-offset-before-keys) as walks over reader objects, one action per object visited, under a concurrent publisher (rollover) and deleter; a result must be right in one of the abstract states the log went through during the call"},
+				{Module: "KlevConcK.tla", Cfg: "conck_f16.cfg", Workers: 4, Timeout: 10 * time.Minute, Expect: "CONSUMEBYKEY-NOT-LINEARIZABLE",
+					Note: "negative control: key positions read before the next offset (the code before fix a5c0795, F16 = seeded change S116 at design level): a cursor skips a message for good"},
+				{Module: "KlevConcK.tla", Cfg: "conck_syncunlocked.cfg", Workers: 4, Timeout: 10 * time.Minute, Expect: "SYNC-ON-CLOSED-WRITER",
+					Note: "negative control: Sync releases writerMu before it fsyncs (seeded change S132 at design level): a rollover closes the writer under it"},
+				{Module: "KlevConcK.tla", Cfg: "conck_noguard.cfg", Workers: 4, Timeout: 10 * time.Minute, Expect: "GETBYTIME-NOT-LINEARIZABLE",
+					Note: "negative control: GetByTime hands off into a head segment it saw empty (the code before fixes ac9bbd1 / 86dfaca / 647863d, F02)"},
 				{Module: "Reader.tla", Cfg: tierS(tier, "reader_q.cfg", "reader_t.cfg"), Workers: 8, Timeout: 20 * time.Minute,
 					Note: "Reader.tla: lazy load / unload of one closed segment's reader (getIndexMarked, getMessages, GC) under concurrent consumers and GC calls, one action per lock section / pause point: NoUseAfterClose, InuseExact, NoLeak, no deadlock, every call returns (liveness under weak fairness)"},
 				{Module: "Reader.tla", Cfg: "reader_no_inc.cfg", Workers: 4, Timeout: 5 * time.Minute, Expect: "NoUseAfterClose",
@@ -412,7 +420,7 @@ func seqProfile0(prop, tier string) *SeqProfile {
 				return genHistory(id, seed, g)
 			},
 			RunHist: func(r *SeqRun, h *History, tw *TraceWriter, root string) {
-				c := &crashRunner{r: r, h: h, tw: tw, root: root, torn: tierS(r.Tier, "classes", "all"), depth2: !ploss, plossOn: ploss, crashOn: !ploss}
+				c := &crashRunner{r: r, h: h, tw: tw, root: root, torn: tierS(r.Tier, "classes", "all"), depth2: !ploss, ploss2: ploss, plossOn: ploss, crashOn: !ploss}
 				c.run()
 			},
 			Rule:   "a case is one crash / power-loss image of a tapped real run: the directory after every file-system step of every operation (create, header, record/item append, fsync, rename, remove, dirsync), the interrupted append cut at byte positions (classes in quick, every byte in thorough), for C05 also the directory after every step of the recovery itself (depth 2), for C06 every file cut back between its fsynced and its written length; each image is opened by the real code with Recover, observed (scan, Get sweep, key/time lookups, Stat), recovered again (bytes unchanged), appended to and Checked; TLC judges CrashRecoverOK / PowerLossOK.",
